@@ -8,6 +8,7 @@
 mod fw;
 mod sortchk;
 mod nanchk;
+mod binschk;
 
 fn main() {
     let args: Vec<String> = std::env::args().collect();
@@ -25,6 +26,7 @@ fn main() {
         "select" => sortchk::select(&mut cfg, &mut rep),
         "select_many" => sortchk::select_many(&mut cfg, &mut rep),
         "oob" => sortchk::oob(&mut cfg, &mut rep),
+        "bins" => binschk::bins(&mut cfg, &mut rep),
         "nanview" => nanchk::nanview(&mut cfg, &mut rep),
         _ => {
             eprintln!("unknown enumeration {}", name);
